@@ -19,8 +19,8 @@ def inspectStr : Val Float → String
 
 def printedRec (v : Val Float) : Rec :=
   match v with
-  | .int i => (Rec.mk' "p").addF "n" (Float.ofInt i)
-  | .flt f => (Rec.mk' "p").addF "n" f
+  | .int i => (Rec.mk' "p").addF "n" (Float.ofInt i) |>.addS "e" "0"
+  | .flt f => (Rec.mk' "p").addF "n" f |>.addS "e" "0"
   | v => (Rec.mk' "p").addS "s" (hx ((inspectStr v).toList.map Char.toNat))
 
 def actRec (v : Val Float) : Option Rec :=
